@@ -266,7 +266,12 @@ func genMWCase(t *rapid.T, g mwGenCfg) MWCase {
 			{Op: "refresh", W: 1},
 			{Op: "stmt", W: 0, Stmts: []Stmt{{Kind: "del", Keys: []Val{ks[ia]}, T: -8}}},
 			{Op: "stmt", W: 1, Stmts: []Stmt{{Kind: "upd", Keys: []Val{ks[ib]}, Cols: []string{"b"}, Vals: [][]Val{{vInt(2)}}, T: -7}}},
-			{Op: "vacuum", W: 0, Cut: -1, VacFault: rapid.SampledFrom([]string{"nth-get", "nth-get", "nth-list", "merged-deletes"}).Draw(t, "pfault"), Mask: rapid.IntRange(1, 12).Draw(t, "pmask")},
+			{Op: "vacuum", W: 0, Cut: -1, VacFault: rapid.SampledFrom([]string{"nth-get", "nth-get", "nth-list", "merged-deletes", "from", "from"}).Draw(t, "pfault"), Mask: rapid.IntRange(1, 12).Draw(t, "pmask")},
+			{Op: "observe"},
+			// and the history goes on with a fault-free vacuum: what the first one left behind
+			// must not be in its way
+			{Op: "stmt", W: 0, Stmts: []Stmt{{Kind: "upd", Keys: []Val{ks[ib]}, Cols: []string{"c"}, Vals: [][]Val{{vInt(1)}}, T: -6}}},
+			{Op: "vacuum", W: 0, Cut: -1},
 			{Op: "observe"},
 		}
 		c.Steps = append(pat, c.Steps...)
